@@ -1,5 +1,5 @@
 # property -> (title, Proofs imports, [(theorem name, proofs file, lemma, comment)], intro comment)
-SPEC['C01'] = ('Top-down require returns what a from-scratch build would return', ['Local', 'Local2', 'History', 'ExecInv', 'ExecSession', 'Cert', 'Stable', 'NoBug4', 'Sim', 'C01Witness', 'Final'], [
+SPEC['C01'] = ('Top-down require returns what a from-scratch build would return', ['Local', 'Local2', 'History', 'ExecInv', 'ExecSession', 'Cert', 'Stable', 'NoBug4', 'Sim', 'NoAbort', 'Final', 'C01Witness'], [
   ('C01_returns_cached_partial', 'Local2', 'make_consistent_returns_cached',
    'partial: whatever make_task_consistent returns is the cached output of the task, and the task is marked consistent for the session'),
   ('C01_reuse_needs_all_consistent_partial', 'Local', 'check_deps_inconsistent',
@@ -78,7 +78,8 @@ SPEC['C18'] = ('Checker errors during validation never cause stale reuse and are
   ('C18_td_error', 'Local', 'check_deps_error', 'top-down: an erring resource checker ends validation with "inconsistent", pushes the error, never aborts'),
   ('C18_bu_error', 'Local', 'try_schedule_error', 'bottom-up: an erring checker pushes the error and schedules the task'),
 ], 'For arbitrary checker records and worlds.')
-SPEC['C19'] = ('An aborted build leaves the Pie instance usable and sound', ['Local', 'History', 'ExecInv', 'ExecSession', 'Cert', 'Stable', 'NoBug4', 'Sim', 'Final'], [
+SPEC['C19'] = ('An aborted build leaves the Pie instance usable and sound', ['Local', 'History', 'ExecInv', 'ExecSession', 'Cert', 'Stable', 'NoBug4', 'Sim', 'Final', 'Findings'], [
+  ('C19_spurious_cycle_after_abort_refuted', 'Findings', 'C19_spurious_cycle_after_abort_refuted', 'recorded finding (O13): for programs whose require structure changes with the state, a repaired cycle can leave a reserved edge of the aborted task behind that makes a later build abort with a cycle that no longer exists'),
   ('C19_no_internal_error_all_histories', 'Final', 'history_sound',
    'for ALL programs, checkers, fuel and ALL histories of top-down sessions and external changes from the empty store: every session result is a value, a user-level abort (task panic, cycle, hidden dependency, overlapping write) or out-of-fuel -- never one of the internal-invariant panics (ABug 1 reserved dependency checked, 2 consistent task without output, 3 require dependency missing, 5 edge without data) -- and the final store satisfies both store invariants (J), whatever aborted before. The model-only abort ABug 4 is proved unreachable (NoBug4.v, DagNoFuel.v)'),
   ('C19_abort_leaves_invariants', 'ExecSession', 'session_require_execs',
@@ -87,7 +88,7 @@ SPEC['C19'] = ('An aborted build leaves the Pie instance usable and sound', ['Lo
   ('C19_no_output_executes', 'Local', 'make_consistent_no_output',
    'a task without output (new, or its last execution aborted) is executed without inspecting its left-over dependencies (so a ReservedRequire edge is never consistency-checked)'),
 ], 'No-internal-error and invariant recovery are proved for all top-down histories (ExecInv.v, ExecSession.v); that later builds return from-scratch results (the C01 clause) is decided by correspondence + oracle (panic injected at arbitrary operations).')
-SPEC['C20'] = ('Incremental builds abort only for violations that exist now', ['Local', 'Findings'], [
+SPEC['C20'] = ('Incremental builds abort only for violations that exist now', ['Local', 'History', 'ExecInv', 'ExecSession', 'Cert', 'Stable', 'NoBug4', 'Sim', 'NoAbort', 'Final', 'Findings'], [
   ('C20_write_abort_iff_recorded', 'Local', 'validate_write_none', 'a write is accepted exactly when no writer is recorded and every recorded reader transitively requires the writer'),
   ('C20_write_abort_only_then', 'Local', 'sess_write_abort_only', 'aborts of a write come only from that diagnosis'),
   ('C20_read_abort_only_then', 'Local', 'sess_read_hidden_only', 'aborts of a read come only from a recorded writer that is not a transitive dependency'),
@@ -125,7 +126,7 @@ RAW['C01'] = [
   let w := snd (run_history RC OC P always fuel init_world h) in
   let ra := run_session RC OC P always fuel (new_session w) ops in
   let rb := run_session RC OC P always fuel0 (new_session (fresh_of w)) ops in
-  Forall is_done (fst ra) -> Forall is_done (fst rb) ->
+  Forall Sim.is_done (fst ra) -> Forall Sim.is_done (fst rb) ->
   fst ra = fst rb /\\ forall r, get_content (snd ra) r = get_content (snd rb) r""",
    'intros gen wck RC OC P sf always HS HWF HC HW HOC. exact (incremental_equals_scratch_all RC OC P always gen wck sf HS HWF HC HW HOC).'),
   ('C01_simulation',
@@ -135,8 +136,8 @@ RAW['C01'] = [
   ('C01_hypotheses_satisfiable',
    'non-vacuity: exact checkers and a generator/consumer pair of tasks satisfy every hypothesis, and the history [set r1 := 1; build; set r1 := 2] with the session [require consumer] satisfies every premise',
    """  td_hist hx /\\ td_only opsx /\\ ~ Exists (Exists bug4) (fst (run_history RCx OCx Px 0 50 init_world hx)) /\\
-  Forall is_done (fst (run_session RCx OCx Px 0 50 (new_session (snd (run_history RCx OCx Px 0 50 init_world hx))) opsx)) /\\
-  Forall is_done (fst (run_session RCx OCx Px 0 50 (new_session (fresh_of (snd (run_history RCx OCx Px 0 50 init_world hx)))) opsx))""",
+  Forall Sim.is_done (fst (run_session RCx OCx Px 0 50 (new_session (snd (run_history RCx OCx Px 0 50 init_world hx))) opsx)) /\\
+  Forall Sim.is_done (fst (run_session RCx OCx Px 0 50 (new_session (fresh_of (snd (run_history RCx OCx Px 0 50 init_world hx)))) opsx))""",
    'exact C01_premises.'),
   ('C01_witness_does_real_work',
    'in that instance the incremental session re-executes the generator and then the consumer and returns the changed result (211 after 207)',
@@ -150,4 +151,35 @@ RAW['C19'] = [
   ('C19_later_builds_equal_scratch',
    'the C01 theorem, restated: its histories h contain sessions that ended in ANY abort (run_session stops at the abort and leaves the store as the unwinding left it; td_hist does not restrict results); a later session that returns agrees with a from-scratch session on the then-current resources',
    RAW['C01'][0][2], RAW['C01'][0][3]),
+]
+
+TOTAL_BINDERS = '''  forall (gen : res -> option task) (wck : rcid -> Prop) (ord : task -> nat)
+         (RC : rcid -> rchecker) (OC : ocid -> ochecker) (P : task -> prog) (sf : rcid -> res -> content -> Z) (always : ocid),
+  (forall c env r v, rc_stamp (RC c) env r v = inl (sf c r v)) ->    (* stampers total, independent of the checker environment *)
+  (forall t, WFP gen wck t [] (P t)) ->                              (* no target twice; generator required before its product is read; writes only to own products *)
+  (forall t, WFO ord t (P t)) ->                                     (* requires go down in a well-founded order; no task panics *)
+'''
+RAW['C20'] = [
+  ('C20_static_class_never_aborts',
+   'first clause of the property, as a theorem: for well-formed programs (static class WFP + WFO: they contain no violation in any state) NO session of ANY history of top-down sessions and external changes ever aborts -- no cycle, hidden-dependency or overlapping-write diagnosis can fire, whatever the store recorded in earlier states -- and every require returns (fuel above the height of the required roots). Invariant Q of NoAbort.v: recorded requires go down in ord, recorded writes are own products, every recorded read of a generated resource has its generator among the recorded requires',
+   TOTAL_BINDERS + """  forall fuel h, hist_below ord fuel h ->
+  Forall (Forall Sim.is_done) (fst (run_history RC OC P always fuel init_world h))""",
+   'intros gen wck ord RC OC P sf always HS HWF HWO. exact (static_class_never_aborts RC OC P always gen wck ord sf HS HWF HWO).'),
+]
+RAW['C01'] += [
+  ('C01_total',
+   'C01 without assuming that the builds return: in the static class (C20_static_class_never_aborts) both the incremental session and the from-scratch session return, with equal outputs and equal contents of every resource, after any history',
+   TOTAL_BINDERS + """  (forall c env r v v', rc_check (RC c) env r v' (sf c r v) = Consistent -> rc_view (RC c) v' = rc_view (RC c) v) ->
+  (forall c env r v v', wck c -> rc_check (RC c) env r v' (sf c r v) = Consistent -> v' = v) ->
+  (forall c o o', oc_check (OC c) o' (oc_stamp (OC c) o) = true -> oc_view (OC c) o' = oc_view (OC c) o) ->
+  forall fuel fuel0 h ops, hist_below ord fuel h -> roots_below ord fuel ops -> roots_below ord fuel0 ops ->
+  let w := snd (run_history RC OC P always fuel init_world h) in
+  let ra := run_session RC OC P always fuel (new_session w) ops in
+  let rb := run_session RC OC P always fuel0 (new_session (fresh_of w)) ops in
+  Forall Sim.is_done (fst ra) /\\ Forall Sim.is_done (fst rb) /\\ fst ra = fst rb /\\ forall r, get_content (snd ra) r = get_content (snd rb) r""",
+   'intros gen wck ord RC OC P sf always HS HWF HWO HC HW HOC. exact (incremental_equals_scratch_total RC OC P always gen wck ord sf HS HWF HWO HC HW HOC).'),
+  ('C01_total_witness',
+   'non-vacuity of C01_total: the generator/consumer instance of C01Witness.v is in the static class and its history satisfies the premises',
+   """  hist_below ordx 50 hx /\\ roots_below ordx 50 opsx /\\ (forall t, WFO ordx t (Px t)) /\\ (forall t, WFP genx (fun _ => True) t [] (Px t))""",
+   'destruct C01_total_premises as [A B]. split; [exact A|split; [exact B|split; [exact HWOx|exact HWFx]]].'),
 ]
